@@ -132,6 +132,31 @@ def cases(tier):
         _deckfam.two_deck_scenes('quick', rich=False)[3:40:9] + _deckfam.split_scenes('quick')[:3] + _deckfam.two_ceilo_scenes('quick')[:2]
     for name, spec in col_sc:
         out.append({'fam': 'COL', 'name': name, 'scene': spec})
+    # column orders on scenes that reach the later stages' data-dependent paths: bundles of overlapping slices (time gaps), groups re-clustered
+    # in time, and base heights whose look-back cut falls among simultaneous hits of several ceilometers
+    later = [(n, sp, [None, MSA_PRM]) for n, sp in _deckfam.overlap_scenes('quick')[:2]]
+    later += [('regroup:%d' % a, {'gen': 'regroup', 'args': [40, 13, 11, 1270., a]}, [None]) for a in (11, 7)]
+    # a thin base rising WITHOUT a height jump across a drop-out of `gap` seconds (between the height scale of the grouping stage and its
+    # time scale): only the time gap can separate the two halves
+    for gap in (120., 150., 170.):
+        rows, k = [], 0
+        for dt in [-900. + 10. * i for i in range(41)] + [-500. + gap + 10. * i for i in range(int((500. - gap) // 10) + 1)]:
+            rows.append(['a', dt, 1000. + 12. * k, 1])
+            k += 1
+        later.append(('dropout:%g' % gap, {'gen': 'rows', 'rows': rows}, [None]))
+    lb = [{'BASE_LVL_LOOKBACK_PERC': p, 'MIN_SEP_VALS': [100, 1000]} for p in (35, 45)]
+    later += [(n, sp, lb) for n, sp in _deckfam.sync_tie_scenes('quick')[:3]]
+    later += [(n, sp, [{'BASE_LVL_LOOKBACK_PERC': 30}, {'BASE_LVL_LOOKBACK_PERC': 50, 'BASE_LVL_HEIGHT_PERC': 50}]) for n, sp in _deckfam.two_ceilo_scenes('quick')[2:5]]
+    # two synchronised ceilometers, flat, except ONE stamp j where they report 1100 / 900 ft: for look-back 25 / 35 / 45 % the cut of the
+    # 'most recent hits' falls between the two simultaneous hits of stamp 7 / 6 / 5 - whatever breaks that tie must not be the column order
+    for j in range(3, 9):
+        rows = []
+        for i in range(10):
+            ha, hb = (1100., 900.) if i == j else (1000. + i, 1000. + i)
+            rows += [['a', -15. * (9 - i), ha, 1], ['b', -15. * (9 - i), hb, 1]]
+        later.append(('tiecut:%d' % j, {'gen': 'rows', 'rows': rows}, [{'BASE_LVL_LOOKBACK_PERC': lb} for lb in (25, 35, 45)]))
+    for name, spec, pl in later:
+        out.append({'fam': 'COL', 'name': name, 'scene': spec, 'prms_list': pl, 'no_extra': True})
     big = (_deckfam.two_deck_scenes('quick', rich=False)[1:40:6] + _deckfam.two_ceilo_scenes('quick')[::2] + _deckfam.split_scenes('quick')[::3]
            + _deckfam.overlap_scenes('quick')[1::2] + _deckfam.w119_scenes()[:1])
     for name, spec in big:
@@ -187,7 +212,7 @@ def run_case(case):
             res['violations'].append({'clause': clauses[0], 'site': site, 'detail': detail,
                                       'sub': {**{k: v for k, v in case.items() if k != 'only'}, 'only': tag}})
 
-    for prms in [(MSA_PRM if m else None) for m in case.get('msa', [False, True])]:
+    for prms in (case['prms_list'] if 'prms_list' in case else [(MSA_PRM if m else None) for m in case.get('msa', [False, True])]):
         ref, r0 = observe(base, prms)
         res['n'] += 1
         nontrivial = ref[0] == 'OK' and r0.chunk.n_slices
@@ -212,7 +237,7 @@ def run_case(case):
                 res['digests'].add(f"{case['name']}|labels|{prms is not None}")
         elif case['fam'] == 'COL':
             for perm in itertools.permutations(scenes.COLS):
-                for extra in (False, True):
+                for extra in ((False,) if case.get('no_extra') else (False, True)):
                     fr = base.copy()
                     if extra:
                         fr['station'] = 'GVA'
